@@ -159,7 +159,16 @@ func (h *Harness) watchdog() {
 			a.k.Violation("hang:"+a.entry, fmt.Sprintf("call did not return within %v and burned %.0f s of user CPU time without returning", HangWall, burned.Seconds()), wit)
 			h.MarkHung(a.entry)
 		case idle:
-			a.k.Inconclusive("no-return-without-cpu:" + a.entry)
+			// not spinning: blocked. Blocked for good (a hang in the sense of the property) only if
+			// the deadlock rule holds: the same goroutines parked at the same frames in two dumps
+			if sig, stable, dump := mon.StableBlocked(3 * time.Second); stable && h.cur.Load() == a {
+				wit["blocked"] = sig
+				wit["dump"] = dump
+				a.k.Violation("hang:"+a.entry+":blocked-forever", fmt.Sprintf("call did not return within %v: every goroutine involved is parked at the same frames in two dumps 3 s apart", HangWall), wit)
+				h.MarkHung(a.entry)
+			} else {
+				a.k.Inconclusive("no-return-without-cpu:" + a.entry)
+			}
 		default:
 			a.k.Inconclusive("no-return-slow:" + a.entry)
 		}
